@@ -32,6 +32,25 @@ fn hash(s: &[u8]) -> u64 {
     h
 }
 
+/// does the log image end in an incomplete frame? (length fields only; images of real runs
+/// consist of complete frames followed by at most one partial frame)
+pub fn has_torn_tail(wal: &[u8]) -> bool {
+    let mut off = 0usize;
+    loop {
+        if off == wal.len() {
+            return false;
+        }
+        if off + 8 > wal.len() {
+            return true;
+        }
+        let len = u32::from_le_bytes([wal[off], wal[off + 1], wal[off + 2], wal[off + 3]]) as usize;
+        if off + 8 + len > wal.len() {
+            return true;
+        }
+        off += 8 + len;
+    }
+}
+
 pub struct Point {
     pub k: usize,
     pub cut: Option<usize>,
@@ -154,6 +173,15 @@ pub fn explore_crashes(
     let (run, engine) = run_history_from(dir.path(), init, hist, None, true, true);
     drop(engine);
     cx.st.histories += 1;
+    // known class K-C01-tail: the database was recovered from a log ending in a torn frame and
+    // new commits were appended behind it
+    let tail_class: Option<&str> = match init {
+        Some((_, wal)) if has_torn_tail(wal) => Some("K-C01-tail"),
+        _ => None,
+    };
+    if tail_class.is_some() {
+        cx.st.bump("round2_torn_tail");
+    }
     for o in &run.ops {
         if let Err(e) = &o.result {
             // an operation failed without any injected fault
@@ -164,7 +192,7 @@ pub fn explore_crashes(
     for (j, o) in run.oracle.iter().enumerate() {
         if o.starts_with("OPEN FAILED") || o.starts_with("PANIC") {
             cx.st.fails += 1;
-            cx.rep.fail(idx, None, &format!("clean reopen after op {} fails: {}", j, o), json!({"history": hist.iter().map(op_json).collect::<Vec<_>>()}));
+            cx.rep.fail(idx, tail_class, &format!("clean reopen after op {} fails: {}", j, o), json!({"history": hist.iter().map(op_json).collect::<Vec<_>>(), "round2_from_torn_tail": tail_class.is_some()}));
         }
     }
     let tr = abstract_trace(&run);
@@ -198,7 +226,7 @@ pub fn explore_crashes(
         match dump_image(&ndb, &wal) {
             Err(e) => {
                 cx.st.fails += 1;
-                cx.rep.fail(idx, None, &format!("database does not open after crash: {}", e), input());
+                cx.rep.fail(idx, tail_class, &format!("database does not open after crash: {}", e), input());
             }
             Ok(d) => {
                 cx.st.opens_ok += 1;
@@ -207,7 +235,7 @@ pub fn explore_crashes(
                     cx.st.fails += 1;
                     cx.rep.fail(
                         idx,
-                        None,
+                        tail_class,
                         "recovered content is neither the state before nor after the interrupted operation",
                         json!({"input": input(), "recovered": d, "allowed": al}),
                     );
@@ -269,11 +297,23 @@ pub fn explore_faults(cx: &mut Ctx, r: &mut Rng, idx: usize, hist: &[Op], from_o
             json!({"history": hist[..=i].iter().map(op_json).collect::<Vec<_>>(), "fault_at_event": k,
                    "event": format!("{:?} {} off={} len={}", evk.kind, if evk.path.ends_with(".wal") {"wal"} else if evk.path.ends_with(".ndb") {"ndb"} else {"wal.tmp"}, evk.offset, evk.data.len())})
         };
+        // known class K-C08-logged: the fault hits a transaction at a step after its commit
+        // record has been completely appended to the log (the record's fsync, or the node-table
+        // page / meta writes that follow)
+        let logged = matches!(hist[i], Op::Tx(_)) && {
+            let o = &clean.ops[i];
+            let commit_body = (o.start..o.end).rev().find(|j| {
+                let e = &clean.events[*j];
+                e.kind == IoKind::Write && e.path == clean.wal_path && e.data.len() == 9 && e.data[0] == 2
+            });
+            matches!(commit_body, Some(cb) if k > cb)
+        };
+        let class = if logged { Some("K-C08-logged") } else { None };
         let opres = frun.ops.last().map(|o| o.result.clone()).unwrap_or(Ok(()));
         let failed = opres.is_err();
         let Some(engine) = engine else {
             // reopen inside the operation failed: the handle is gone; check the files below
-            check_after_fault(cx, idx, &clean, i, d2.path(), true, &input);
+            check_after_fault(cx, idx, &clean, i, d2.path(), true, class, &input);
             continue;
         };
         // (1) not visible in the running process
@@ -282,16 +322,19 @@ pub fn explore_faults(cx: &mut Ctx, r: &mut Rng, idx: usize, hist: &[Op], from_o
             let before = &frun.mem_dumps[i];
             if &mem_after != before {
                 cx.st.fails += 1;
-                cx.rep.fail(idx, Some("K-C08-visible").filter(|_| false), "effects of a failed operation are visible in the running process", json!({"input": input(), "before": before, "after": mem_after}));
+                cx.rep.fail(idx, class, "effects of a failed operation are visible in the running process", json!({"input": input(), "before": before, "after": mem_after}));
             }
         }
         // (2) the database keeps accepting transactions
-        let follow = vec![W::Node { ext: 999_999, label: "A".into() }];
+        // the property lives only in the log-replayed part of the state: if the follow-up
+        // transaction is lost from the log the node row alone may survive through the node table
+        let fiid = engine.scan_i2e_records().len() as u32;
+        let follow = vec![W::Node { ext: 999_999, label: "A".into() }, W::SetNP { n: fiid, k: "fk".into(), v: 7 }];
         let fres = vh::catch(std::panic::AssertUnwindSafe(|| apply_tx(&engine, &follow)));
         let follow_ok = matches!(fres, Ok(Ok(())));
         if !follow_ok {
             cx.st.fails += 1;
-            cx.rep.fail(idx, None, &format!("transaction after a failed operation is refused: {:?}", fres), input());
+            cx.rep.fail(idx, class, &format!("transaction after a failed operation is refused: {:?}", fres), input());
         }
         drop(engine);
         // abstract trace of the faulted run -> Coq
@@ -306,30 +349,30 @@ pub fn explore_faults(cx: &mut Ctx, r: &mut Rng, idx: usize, hist: &[Op], from_o
             emit_case(cx, &tr, false, &[]);
         }
         // (3) after reopen: all or nothing, and the follow-up transaction is durable
-        check_after_fault(cx, idx, &clean, i, d2.path(), !follow_ok, &input);
+        check_after_fault(cx, idx, &clean, i, d2.path(), !follow_ok, class, &input);
     }
 }
 
-fn check_after_fault(cx: &mut Ctx, idx: usize, clean: &Run, i: usize, dir: &std::path::Path, no_follow: bool, input: &dyn Fn() -> serde_json::Value) {
+fn check_after_fault(cx: &mut Ctx, idx: usize, clean: &Run, i: usize, dir: &std::path::Path, no_follow: bool, class: Option<&str>, input: &dyn Fn() -> serde_json::Value) {
     let p = Paths::in_dir(dir);
     match open_engine(&p) {
         Err(e) => {
             cx.st.fails += 1;
-            cx.rep.fail(idx, None, &format!("database does not open after a failed operation: {}", e), input());
+            cx.rep.fail(idx, class, &format!("database does not open after a failed operation: {}", e), input());
         }
         Ok(e) => {
             cx.st.opens_ok += 1;
             let d = dump(&e);
-            if !no_follow && !d.contains("ext=Some(999999)") {
+            if !no_follow && !d.lines().any(|l| l.contains("ext=Some(999999)") && l.contains("fk=Int(7)")) {
                 cx.st.fails += 1;
-                cx.rep.fail(idx, None, "transaction committed after a failed operation is lost after reopen", json!({"input": input(), "dump": d}));
+                cx.rep.fail(idx, class, "transaction committed after a failed operation is lost after reopen", json!({"input": input(), "dump": d}));
             }
             let s = strip_followup(&d);
             let before = clean.oracle.get(i).map(|x| strip_followup(x));
             let after = clean.oracle.get(i + 1).map(|x| strip_followup(x));
             if Some(&s) != before.as_ref() && Some(&s) != after.as_ref() {
                 cx.st.fails += 1;
-                cx.rep.fail(idx, None, "after reopen the failed operation is present in part", json!({"input": input(), "dump": d, "before": before, "after": after}));
+                cx.rep.fail(idx, class, "after reopen the failed operation is present in part", json!({"input": input(), "dump": d, "before": before, "after": after}));
             }
         }
     }
